@@ -44,6 +44,7 @@ class PP:
         self.gate_steps = None              # async: steps whose gates are symbolic (None = all)
         self.mutate_names = False           # captures re-assign `let mut` names (C12)
         self.extra_instant = extra_instant or set()   # {(b, s)}: a second, instant logged action in that step
+        self.step_fn = "astep"              # async step helper: `astep` (async fn) or `sstep` (hand-written future, cheap for the solver)
         assert not (self.is_try and carrier == "raw")
 
     # ----- types / constructors --------------------------------------------------------------------
@@ -144,7 +145,7 @@ class PP:
         parts = []
         if b in self.lets:
             parts.append("%s %s =" % (self.lets[b], self.name(b)))
-        parts.append("astep(%d, %d, %s, %s)" % (E(b, 0, 0), E(b, 0, 1), g(0), self.mkv(b, 0, p(b, 0))))
+        parts.append("%s(%d, %d, %s, %s)" % (self.step_fn, E(b, 0, 0), E(b, 0, 1), g(0), self.mkv(b, 0, p(b, 0))))
         for s in range(1, d):
             if self.styles.get((b, s)) == "amap":
                 # cheap form: synchronous callback under FutureExt::map (no pending point in this position)
@@ -161,14 +162,14 @@ class PP:
                 op, tail = "~->", ""
             elif self.is_try:
                 assert self.carrier == "res"
-                cb = "move |v: u8| astep(%d, %d, %s, %s)" % (E(b, s, 0), E(b, s, 1), g(s), self.mkv(b, s, "v ^ " + p(b, s)))
+                cb = "move |v: u8| %s(%d, %d, %s, %s)" % (self.step_fn, E(b, s, 0), E(b, s, 1), g(s), self.mkv(b, s, "v ^ " + p(b, s)))
                 op, tail = "~=>", ""
             else:
                 if self.carrier == "raw":
                     nv = "v ^ " + p(b, s)
                 else:
                     nv = "v.and_then(|v| %s)" % self.mkv(b, s, "v ^ " + p(b, s))
-                cb = "move |v: %s| astep(%d, %d, %s, %s)" % (self.ty, E(b, s, 0), E(b, s, 1), g(s), nv)
+                cb = "move |v: %s| %s(%d, %d, %s, %s)" % (self.ty, self.step_fn, E(b, s, 0), E(b, s, 1), g(s), nv)
                 op, tail = "~|>", " ^^>"
             if (b, s) in self.captures:
                 snap = self.snapshot_code(b, s)
